@@ -17,11 +17,13 @@ import time
 VERIF = os.path.dirname(os.path.dirname(os.path.abspath(__file__)))
 REPO = os.environ.get("VERIF_REPO", "/repo")
 INC = os.path.join(REPO, "code", "include")
-WORK = os.path.join(VERIF, ".work")
+# self-tests run the checks against scratch trees (VERIF_REPO) concurrently with normal use: they
+# get their own scratch and evidence directories so that nothing registered is overwritten
+WORK = os.path.join(VERIF, ".work" + os.environ.get("VERIF_WORK_SUFFIX", ""))
 CACHE = os.path.join(VERIF, ".cache")
 SPEC = os.path.join(VERIF, "spec")
 HARNESS = os.path.join(VERIF, "harness")
-EVID = os.path.join(VERIF, "evidence")
+EVID = os.environ.get("VERIF_EVIDENCE_DIR", os.path.join(VERIF, "evidence"))
 GUARD = "ALLENABY_RLBOX_VERIF"
 NCPU = min(16, os.cpu_count() or 4)
 TLA_JAR = "/opt/veriftools/tla/tla2tools.jar:/opt/veriftools/tla/CommunityModules-deps.jar"
@@ -86,7 +88,7 @@ def build(name, sources, flags=(), opt="-O1", libs=(), timeout=900):
     sources = [s if os.path.isabs(s) else os.path.join(HARNESS, s) for s in sources]
     key = _hash_files(include_files() + harness_headers() + sources,
                       extra=" ".join(list(flags) + [opt] + list(libs)) + REPO)
-    d = os.path.join(CACHE, "bin")
+    d = os.path.join(CACHE, "bin" + os.environ.get("VERIF_WORK_SUFFIX", ""))
     os.makedirs(d, exist_ok=True)
     out = os.path.join(d, "%s-%s" % (name, key))
     if os.path.exists(out):
